@@ -492,6 +492,60 @@ enum GK {
     Empty,
     Simple,
     Composite(Vec<u16>),
+    /// simple glyph with `points` points in `contours` contours (flag-repeat runs: ~2 bytes per 256 points)
+    Big { points: usize, contours: usize, instr: Vec<u8> },
+    /// composite with glyph instructions
+    CompositeI(Vec<u16>, Vec<u8>),
+}
+fn big_simple_glyph(points: usize, contours: usize, instr: &[u8]) -> Vec<u8> {
+    let points = points.clamp(1, 65536);
+    let contours = contours.clamp(1, points);
+    let mut g = vec![];
+    g.extend_from_slice(&be16(contours as u16));
+    g.extend_from_slice(&[0, 0, 0, 0, 0, 100, 0, 100]);
+    for c in 0..contours {
+        let end = if c + 1 == contours { points - 1 } else { (points / contours) * (c + 1) - 1 };
+        g.extend_from_slice(&be16(end as u16));
+    }
+    g.extend_from_slice(&be16(instr.len() as u16));
+    g.extend_from_slice(instr);
+    // ON_CURVE | REPEAT | X_IS_SAME | Y_IS_SAME: no coordinate bytes
+    let mut remaining = points;
+    while remaining > 0 {
+        let run = remaining.min(256);
+        g.push(0x01 | 0x08 | 0x10 | 0x20);
+        g.push((run - 1) as u8);
+        remaining -= run;
+    }
+    if g.len() % 2 == 1 {
+        g.push(0);
+    }
+    g
+}
+fn composite_glyph_instr(comps: &[u16], instr: &[u8]) -> Vec<u8> {
+    let mut g = vec![];
+    g.extend_from_slice(&(-1i16).to_be_bytes());
+    g.extend_from_slice(&[0, 0, 0, 0, 0, 100, 0, 100]);
+    for (i, c) in comps.iter().enumerate() {
+        let last = i + 1 == comps.len();
+        let mut flags = 0x2u16;
+        if !last {
+            flags |= 0x20;
+        } else if !instr.is_empty() {
+            flags |= 0x100; // WE_HAVE_INSTRUCTIONS
+        }
+        g.extend_from_slice(&be16(flags));
+        g.extend_from_slice(&be16(*c));
+        g.extend_from_slice(&[0, 0]);
+    }
+    if !instr.is_empty() {
+        g.extend_from_slice(&be16(instr.len() as u16));
+        g.extend_from_slice(instr);
+    }
+    if g.len() % 2 == 1 {
+        g.push(0);
+    }
+    g
 }
 fn composite_glyph(comps: &[u16]) -> Vec<u8> {
     let mut g = vec![];
@@ -518,6 +572,8 @@ fn glyf_font(glyphs: &[GK], glyph_instr: &[u8], fpgm: &[u8], prep: &[u8], cvt_le
             GK::Empty => {}
             GK::Simple => glyf.extend_from_slice(&simple_glyph(glyph_instr)),
             GK::Composite(c) => glyf.extend_from_slice(&composite_glyph(c)),
+            GK::Big { points, contours, instr } => glyf.extend_from_slice(&big_simple_glyph(*points, *contours, instr)),
+            GK::CompositeI(c, instr) => glyf.extend_from_slice(&composite_glyph_instr(c, instr)),
         }
     }
     loca.extend_from_slice(&(glyf.len() as u32).to_be_bytes());
@@ -905,7 +961,8 @@ fn gk_term(g: &GK) -> String {
     match g {
         GK::Empty => "GEmpty".into(),
         GK::Simple => "GSimple".into(),
-        GK::Composite(c) => format!("GComposite {}", czlist(c.iter().map(|v| *v as i128))),
+        GK::Composite(c) | GK::CompositeI(c, _) => format!("GComposite {}", czlist(c.iter().map(|v| *v as i128))),
+        GK::Big { .. } => "GSimple".into(),
     }
 }
 struct NullPen;
@@ -1310,6 +1367,47 @@ impl skrifa::color::ColorPainter for NullPainter {
     fn pop_layer(&mut self) {}
 }
 
+/// every string entry point for every name id the font mentions (name records, fvar axes / instances, STAT-less)
+/// plus a fixed list
+fn exercise_names(cx: &mut Ctx, font: &skrifa::FontRef) {
+    use skrifa::raw::TableProvider;
+    use skrifa::string::StringId;
+    use skrifa::MetadataProvider;
+    let mut ids: Vec<u16> = vec![0, 1, 2, 3, 4, 5, 6, 16, 17, 21, 22, 25, 255, 256, 257, 258, 0x7FFF, 0x8000, 0xFFFF];
+    if let Some(Ok(name)) = cx.api("name.records", || font.name().map(|n| n.name_record().iter().take(300).map(|r| r.name_id().to_u16()).collect::<Vec<_>>())) {
+        ids.extend(name);
+    }
+    for a in font.axes().iter().take(16) {
+        ids.push(a.name_id().to_u16());
+    }
+    for i in font.named_instances().iter().take(16) {
+        ids.push(i.subfamily_name_id().to_u16());
+        if let Some(p) = i.postscript_name_id() {
+            ids.push(p.to_u16());
+        }
+    }
+    ids.sort();
+    ids.dedup();
+    for id in ids {
+        cx.api("localized_strings", || {
+            let mut n = 0usize;
+            // full iteration: language tag, chars, to_string for every record
+            for s in font.localized_strings(StringId::new(id)).take(400) {
+                n += s.language().map(|l| l.len()).unwrap_or(0);
+                n += s.chars().take(70000).count();
+                n += s.to_string().len();
+
+            }
+            let ls = font.localized_strings(StringId::new(id));
+            let _ = ls.id();
+            if let Some(s) = ls.english_or_first() {
+                n += s.language().map(|l| l.len()).unwrap_or(0) + s.to_string().len();
+            }
+            n
+        });
+    }
+}
+
 /// every public skrifa API on one (possibly hostile) font
 fn exercise_font(cx: &mut Ctx, data: &[u8], rng: &mut Rng, thorough: bool) {
     use skrifa::instance::{LocationRef, Size};
@@ -1361,17 +1459,7 @@ fn exercise_font(cx: &mut Ctx, data: &[u8], rng: &mut Rng, thorough: bool) {
         let _ = ni.get(usize::MAX);
         ni.len()
     });
-    cx.api("localized_strings", || {
-        let mut n = 0usize;
-        for id in [0u16, 1, 2, 3, 4, 5, 6, 16, 17, 25, 255, 256, 0xFFFF] {
-            for s in font.localized_strings(skrifa::string::StringId::new(id)).take(64) {
-                let _ = s.language();
-                n += s.chars().take(4096).count();
-            }
-            let _ = font.localized_strings(skrifa::string::StringId::new(id)).english_or_first().map(|s| s.to_string());
-        }
-        n
-    });
+    exercise_names(cx, font);
     let cmap_gids: Vec<u32> = cx.api("charmap", || {
         let cm = font.charmap();
         let _ = (cm.has_map(), cm.is_symbol(), cm.has_variant_map());
@@ -2490,7 +2578,7 @@ fn cff_cases() -> Vec<(String, Vec<u8>)> {
 /// Private DICT with the given numbers of zone pairs per blue array (counts may exceed the spec maxima 7/5/7/5)
 fn cff_private_dict(nbv: usize, nob: usize, nfb: usize, nfo: usize, lang: u8, height: i32, snaps: usize) -> Vec<u8> {
     let mut d = vec![];
-    let mut blues = |d: &mut Vec<u8>, n: usize, start: i32, op: u8| {
+    let blues = |d: &mut Vec<u8>, n: usize, start: i32, op: u8| {
         if n == 0 {
             return;
         }
@@ -2998,6 +3086,274 @@ fn exercise_gk(cx: &mut Ctx, c: &GkCase) {
     }
 }
 
+// ---- big outlines: the point-count limit must hold for every draw configuration ----
+fn big_outline_fonts() -> Vec<(String, Vec<u8>)> {
+    let mut v = vec![];
+    let instr = vec![0xB0u8, 0x00, 0x21]; // PUSHB[0] 0; POP
+    for (points, contours) in [(10000usize, 1usize), (22000, 3), (33000, 1), (40000, 2), (65535, 1), (65536, 7)] {
+        let glyphs = vec![
+            GK::Big { points, contours, instr: vec![] },                // 0 plain big simple
+            GK::Big { points, contours, instr: instr.clone() },         // 1 big simple with instructions
+            GK::CompositeI(vec![0], instr.clone()),                      // 2 instructed composite of one
+            GK::Composite(vec![0, 2]),                                   // 3 nested instructed composite in non-first position
+            GK::Composite(vec![2, 0]),                                   // 4 ... in first position
+            GK::CompositeI(vec![0, 2], instr.clone()),                   // 5 instructed, nesting an instructed one
+            GK::Composite(vec![3, 3]),                                   // 6 three deep
+            GK::CompositeI(vec![4, 1, 2], instr.clone()),                // 7 three deep, instructed, mixed
+            GK::Composite(vec![0, 0, 0]),                                // 8 flat triple
+            GK::Composite(vec![1, 5]),                                   // 9 instructed simple + instructed composite
+            GK::Simple,                                                  // 10 small
+            GK::Composite(vec![10, 6]),                                  // 11 small first, then a deep big one
+        ];
+        // with and without font-level programs (AutoFallback picks the interpreter only with them)
+        let fdef = assemble(&[AI::Fdef(0), AI::Endf]);
+        v.push((format!("synthetic-bigoutline-p{}-c{}-programs", points, contours), glyf_font(&glyphs, &[], &fdef, &[0x18], 2, 16, 2)));
+        v.push((format!("synthetic-bigoutline-p{}-c{}-plain", points, contours), glyf_font(&glyphs, &[], &[], &[], 0, 16, 0)));
+    }
+    v
+}
+/// one glyph through EVERY draw configuration: unhinted x both path styles x sizes, every hinting engine x target x
+/// pedantic, with internal and caller memory.  Sibling-constructor oracle: when any configuration reports
+/// TooManyPoints no other configuration may succeed in drawing the same glyph.
+fn exercise_all_configs(cx: &mut Ctx, data: &[u8]) {
+    use skrifa::instance::{LocationRef, Size};
+    use skrifa::outline::{pen::PathStyle, DrawError, DrawSettings, Engine, HintingInstance, HintingOptions, SmoothMode, Target};
+    use skrifa::MetadataProvider;
+    let Ok(font) = skrifa::FontRef::new(data) else { return };
+    let og = font.outline_glyphs();
+    let targets = [
+        Target::Mono,
+        Target::Smooth { mode: SmoothMode::Normal, symmetric_rendering: true, preserve_linear_metrics: false },
+        Target::Smooth { mode: SmoothMode::Light, symmetric_rendering: false, preserve_linear_metrics: false },
+        Target::Smooth { mode: SmoothMode::Lcd, symmetric_rendering: true, preserve_linear_metrics: true },
+        Target::Smooth { mode: SmoothMode::VerticalLcd, symmetric_rendering: false, preserve_linear_metrics: false },
+    ];
+    let mut instances: Vec<(String, HintingInstance)> = vec![];
+    cx.group("HintingInstance::new");
+    for (en, engine) in [("interpreter", Engine::Interpreter), ("autofallback", Engine::AutoFallback), ("auto", Engine::Auto(None))] {
+        for (ti, target) in targets.iter().enumerate() {
+            if en != "interpreter" && ti > 1 {
+                continue;
+            }
+            if let Some(Ok(inst)) = cx.api("HintingInstance::new", || HintingInstance::new(&og, Size::new(16.0), LocationRef::default(), HintingOptions { engine: engine.clone(), target: *target })) {
+                instances.push((format!("{}#{}", en, ti), inst));
+            }
+        }
+    }
+    let nglyphs = { use skrifa::raw::TableProvider; font.maxp().map(|m| m.num_glyphs()).unwrap_or(0) };
+    for gid in 0..nglyphs.min(16) as u32 {
+        let Some(Some(glyph)) = cx.api("outline_glyphs.get", || og.get(skrifa::GlyphId::new(gid))) else { continue };
+        let mut too_many = 0u32;
+        let mut ok = 0u32;
+        let mut record = |r: Option<Result<(), DrawError>>| match r {
+            Some(Ok(())) => ok += 1,
+            Some(Err(DrawError::TooManyPoints(_))) => too_many += 1,
+            _ => {}
+        };
+        let req = glyph.draw_memory_size(skrifa::outline::Hinting::Embedded).min(1 << 26);
+        let mut buf = vec![0u8; req + 16];
+        for style in [PathStyle::FreeType, PathStyle::HarfBuzz] {
+            for size in [Size::unscaled(), Size::new(16.0)] {
+                cx.group(&format!("draw.unhinted.{:?}", style));
+                record(cx.api("draw.unhinted", || glyph.draw(DrawSettings::unhinted(size, LocationRef::default()).with_path_style(style), &mut NullPen).map(|_| ())));
+                record(cx.api("draw.unhinted", || glyph.draw(DrawSettings::unhinted(size, LocationRef::default()).with_path_style(style).with_memory(Some(&mut buf[1..])), &mut NullPen).map(|_| ())));
+            }
+        }
+        for (name, inst) in &instances {
+            cx.group(&format!("draw.hinted.{}", name));
+            for ped in [false, true] {
+                record(cx.api("draw.hinted", || glyph.draw(DrawSettings::hinted(inst, ped), &mut NullPen).map(|_| ())));
+            }
+            record(cx.api("draw.hinted", || glyph.draw(DrawSettings::hinted(inst, false).with_memory(Some(&mut buf[..])), &mut NullPen).map(|_| ())));
+        }
+        cx.count(if too_many > 0 { "big.too_many_points" } else { "big.drawn" });
+        if too_many > 0 && ok > 0 {
+            cx.fail("draw", "limit:TooManyPoints-not-enforced-by-every-configuration".into(), &format!("gid {}: {} configurations refuse with TooManyPoints, {} draw it", gid, too_many, ok));
+        }
+    }
+}
+
+// ---- `name` table builder stream ----
+fn name_font(name: &[u8], with_fvar: bool) -> Vec<u8> {
+    let mut hmtx = vec![];
+    hmtx.extend_from_slice(&be16(500));
+    hmtx.extend_from_slice(&be16(10));
+    let g = simple_glyph(&[]);
+    let mut loca = vec![0u8, 0, 0, 0];
+    loca.extend_from_slice(&(g.len() as u32).to_be_bytes());
+    let mut t: Vec<(&[u8; 4], Vec<u8>)> = vec![
+        (b"head", head_table()),
+        (b"hhea", hhea_table(1)),
+        (b"maxp", maxp_table(1, 16, 0)),
+        (b"hmtx", hmtx),
+        (b"loca", loca),
+        (b"glyf", g),
+        (b"name", name.to_vec()),
+    ];
+    if with_fvar {
+        // 1 axis (name id 256), 2 instances (subfamily 257 / 258, postscript 258 / 0xFFFF)
+        let mut f = vec![0u8, 1, 0, 0, 0, 16, 0, 2, 0, 1, 0, 20, 0, 2, 0, 10];
+        f.extend_from_slice(b"wght");
+        for v in [100i32, 400, 900] {
+            f.extend_from_slice(&(v << 16).to_be_bytes());
+        }
+        f.extend_from_slice(&[0, 0, 1, 0]); // flags, axisNameID 256
+        for (sub, ps) in [(257u16, 258u16), (258, 0xFFFF)] {
+            f.extend_from_slice(&sub.to_be_bytes());
+            f.extend_from_slice(&[0, 0]);
+            f.extend_from_slice(&(400i32 << 16).to_be_bytes());
+            f.extend_from_slice(&ps.to_be_bytes());
+        }
+        t.push((b"fvar", f));
+    }
+    build_sfnt(&t)
+}
+fn name_cases(seed: u64, thorough: bool) -> Vec<(String, Vec<u8>, bool)> {
+    let mut rng = Rng::new(seed ^ 0x4e41_4d45);
+    let mut v = vec![];
+    let n = if thorough { 6000 } else { 900 };
+    let tag_char_lens = [0usize, 1, 2, 5, 29, 30, 31, 32, 33, 64, 200, 400];
+    for i in 0..n {
+        let version: u16 = if i % 3 == 0 { 0 } else { 1 };
+        let ntags = if version == 1 { rng.below(4) as usize } else { 0 };
+        let nrec = 1 + rng.below(7) as usize;
+        let mut storage: Vec<u8> = vec![];
+        let mut put_string = |rng: &mut Rng, storage: &mut Vec<u8>, kind: u64, chars: usize| -> (u16, u16) {
+            let off = storage.len();
+            match kind {
+                0 => {
+                    // ASCII UTF-16BE
+                    for k in 0..chars {
+                        storage.extend_from_slice(&[0, b'a' + (k % 26) as u8]);
+                    }
+                }
+                1 => {
+                    // non-ASCII / surrogates / private use UTF-16BE
+                    for k in 0..chars {
+                        let u: u16 = *rng.pick(&[0x00E9u16, 0x4E2D, 0xD800, 0xDC00, 0xFFFF, 0x0041, 0xD83D, 0xDE00, 0x0000]);
+                        storage.extend_from_slice(&(u.wrapping_add(k as u16 & 1)).to_be_bytes());
+                    }
+                }
+                2 => {
+                    // single bytes (Mac Roman), incl. high half
+                    for k in 0..chars {
+                        storage.push(if k % 3 == 0 { 0x80 + (k % 128) as u8 } else { b'A' + (k % 26) as u8 });
+                    }
+                }
+                _ => {
+                    // odd byte length UTF-16
+                    for k in 0..chars {
+                        storage.extend_from_slice(&[0, b'x' + (k % 3) as u8]);
+                    }
+                    storage.push(0);
+                }
+            }
+            ((storage.len() - off) as u16, off as u16)
+        };
+        // language tags
+        let mut tags: Vec<(u16, u16)> = vec![];
+        for _ in 0..ntags {
+            let chars = *rng.pick(&tag_char_lens);
+            let kind = *rng.pick(&[0u64, 0, 0, 1, 3]);
+            let (mut len, mut off) = put_string(&mut rng, &mut storage, kind, chars);
+            match rng.below(12) {
+                0 => off = off.wrapping_add(40000),   // beyond storage
+                1 => len = len.wrapping_add(7),       // runs past its data / odd
+                2 => len = 0xFFFF,
+                _ => {}
+            }
+            tags.push((len, off));
+        }
+        // name records
+        let mut recs: Vec<[u16; 6]> = vec![];
+        for _ in 0..nrec {
+            let platform = *rng.pick(&[0u16, 1, 3, 3, 3, 2, 4, 0xFFFF]);
+            let encoding = *rng.pick(&[0u16, 1, 3, 4, 10, 6, 99]);
+            let language = match rng.below(6) {
+                0 => 0,
+                1 => 0x409,
+                2 => 0x8000 + rng.below(ntags as u64 + 3) as u16,
+                3 => (0x8000 + ntags as u16).wrapping_sub(1),
+                4 => 0xFFFF,
+                _ => *rng.pick(&[0x407u16, 0x411, 1, 11, 0x7FFF]),
+            };
+            let name_id = *rng.pick(&[0u16, 1, 1, 2, 4, 6, 16, 17, 25, 256, 257, 258, 0xFFFF]);
+            let chars = *rng.pick(&[0usize, 1, 2, 3, 7, 30, 31, 64, 300]);
+            let kind = if platform == 1 { 2 } else { rng.below(4) };
+            let (mut len, mut off) = put_string(&mut rng, &mut storage, kind, chars);
+            match rng.below(14) {
+                0 => off = off.wrapping_add(50000),
+                1 => len = 0xFFFF,
+                2 => len = len.wrapping_add(1),
+                3 => len = 0,
+                _ => {}
+            }
+            recs.push([platform, encoding, language, name_id, len, off]);
+        }
+        if rng.chance(2, 3) {
+            recs.sort();
+        }
+        let header = 6 + 12 * recs.len() + if version == 1 { 2 + 4 * tags.len() } else { 0 };
+        let mut t = vec![];
+        t.extend_from_slice(&version.to_be_bytes());
+        t.extend_from_slice(&(recs.len() as u16).to_be_bytes());
+        let storage_off = match rng.below(12) {
+            0 => 0u16,
+            1 => header as u16 + 3,
+            2 => 0xFFFF,
+            _ => header as u16,
+        };
+        t.extend_from_slice(&storage_off.to_be_bytes());
+        for r in &recs {
+            for x in r {
+                t.extend_from_slice(&x.to_be_bytes());
+            }
+        }
+        if version == 1 {
+            let declared = match rng.below(10) {
+                0 => tags.len() as u16 + 2, // more tags announced than present
+                _ => tags.len() as u16,
+            };
+            t.extend_from_slice(&declared.to_be_bytes());
+            for (l, o) in &tags {
+                t.extend_from_slice(&l.to_be_bytes());
+                t.extend_from_slice(&o.to_be_bytes());
+            }
+        }
+        t.extend_from_slice(&storage);
+        if rng.chance(1, 15) && t.len() > 8 {
+            let l = 6 + rng.below(t.len() as u64 - 6) as usize;
+            t.truncate(l);
+        }
+        v.push((format!("synthetic-name-v{}", version), name_font(&t, i % 2 == 0), i % 2 == 0));
+    }
+    v
+}
+fn exercise_name_font(cx: &mut Ctx, data: &[u8]) {
+    use skrifa::MetadataProvider;
+    let Ok(font) = skrifa::FontRef::new(data) else { return };
+    cx.group("strings");
+    exercise_names(cx, &font);
+    cx.group("metadata");
+    cx.api("attributes", || {
+        let a = font.attributes();
+        (a.weight.value(), a.stretch.ratio(), a.style)
+    });
+    cx.api("axes", || font.axes().iter().map(|a| font.localized_strings(a.name_id()).english_or_first().map(|s| s.to_string().len()).unwrap_or(0)).sum::<usize>());
+    cx.api("named_instances", || {
+        font.named_instances()
+            .iter()
+            .map(|i| {
+                let a = font.localized_strings(i.subfamily_name_id()).english_or_first().map(|s| s.to_string().len()).unwrap_or(0);
+                let b = i.postscript_name_id().and_then(|p| font.localized_strings(p).english_or_first()).map(|s| s.chars().count()).unwrap_or(0);
+                a + b
+            })
+            .sum::<usize>()
+    });
+    cx.api("glyph_names", || font.glyph_names().iter().take(10).count());
+    cx.count("name.fonts");
+}
+
 // ---- task list (identical in every process) ----
 #[derive(Clone)]
 enum Task {
@@ -3011,6 +3367,8 @@ enum Task {
     Cff(usize),
     Brotli(usize),
     Gk(usize),
+    Big(usize),
+    Name(usize),
 }
 
 struct World {
@@ -3025,6 +3383,8 @@ struct World {
     cffs: Vec<(String, Vec<u8>)>,
     brs: Vec<BrCase>,
     gks: Vec<GkCase>,
+    bigs: Vec<(String, Vec<u8>)>,
+    names: Vec<(String, Vec<u8>, bool)>,
     tasks: Vec<Task>,
 }
 
@@ -3091,13 +3451,21 @@ fn build_world(seed: u64, thorough: bool) -> World {
     for i in 0..gks.len() {
         tasks.push(Task::Gk(i));
     }
+    let bigs = big_outline_fonts();
+    for i in 0..bigs.len() {
+        tasks.push(Task::Big(i));
+    }
+    let names = name_cases(seed, thorough);
+    for i in 0..names.len() {
+        tasks.push(Task::Name(i));
+    }
     let nim = if thorough { 60000 } else { 8000 };
     for m in 0..nim {
         for fix in 0..ift.len() {
             tasks.push(Task::Ift { fix, m });
         }
     }
-    World { seed, thorough, runs, comps, fonts, ift, f1, f2, cffs, brs, gks, tasks }
+    World { seed, thorough, runs, comps, fonts, ift, f1, f2, cffs, brs, gks, bigs, names, tasks }
 }
 
 fn run_task(w: &World, idx: usize, totals: &mut std::collections::BTreeMap<String, u64>, evals: &mut u64) {
@@ -3212,6 +3580,28 @@ fn run_task(w: &World, idx: usize, totals: &mut std::collections::BTreeMap<Strin
             wline(&format!("B {} {}", idx, key));
             let mut cx = Ctx { task: idx, key, counters: Default::default(), evals: 0, failures: 0, sites: vec![] };
             exercise_cff(&mut cx, bytes);
+            *evals += cx.evals;
+            for (k, v) in cx.counters {
+                *totals.entry(k).or_insert(0) += v;
+            }
+        }
+        Task::Big(i) => {
+            let (name, bytes) = &w.bigs[*i];
+            let key = format!("{}:id", name);
+            wline(&format!("B {} {}", idx, key));
+            let mut cx = Ctx { task: idx, key, counters: Default::default(), evals: 0, failures: 0, sites: vec![] };
+            exercise_all_configs(&mut cx, bytes);
+            *evals += cx.evals;
+            for (k, v) in cx.counters {
+                *totals.entry(k).or_insert(0) += v;
+            }
+        }
+        Task::Name(i) => {
+            let (name, bytes, _) = &w.names[*i];
+            let key = format!("{}:#{}", name, i);
+            wline(&format!("B {} {}", idx, key));
+            let mut cx = Ctx { task: idx, key, counters: Default::default(), evals: 0, failures: 0, sites: vec![] };
+            exercise_name_font(&mut cx, bytes);
             *evals += cx.evals;
             for (k, v) in cx.counters {
                 *totals.entry(k).or_insert(0) += v;
